@@ -5,6 +5,8 @@ pub mod vals;
 pub mod walk;
 pub mod rng;
 pub mod engines;
+pub mod gen;
+pub mod refsem;
 
 use ctx::{Args, Shard};
 
